@@ -350,10 +350,38 @@ def _bounded_refute(pc, goal, timeout_ms):
         ni = _lam_arg(a)[1]
         if ni is not None:
             _int_consts(a.arg(ni), len_consts)
-    for N in (1, 2, 3, 4):
-        env = [(c, z3.IntVal(N)) for c in len_consts.values()]
+    def _candidate_envs():
+        # (a) every length constant = N (uniform instances)
+        for N in (1, 2, 3, 4):
+            yield N, [(c, z3.IntVal(N)) for c in len_consts.values()]
+        # (b) lengths related by side conditions (n - burn_in, a thinned length L with L*k >= n-b, ...): let the solver
+        # pick small values for the length constants that satisfy the binder-free part of the formulas
+        lens = []
+        for a in _reduction_apps(forms):
+            ni = _lam_arg(a)[1]
+            if ni is not None and not z3.is_int_value(a.arg(ni)):
+                lens.append(a.arg(ni))
+        skeleton = [f for f in forms if not _reduction_apps([f])]
+        sk = z3.Solver()
+        sk.set("timeout", 3000)
+        sk.add(*atom_axioms())
+        sk.add(*skeleton)
+        for l in lens:
+            sk.add(l >= 0, l <= 3)
+        for c in len_consts.values():
+            sk.add(c >= 0, c <= 8)
+        consts = list(len_consts.values())
+        for _ in range(10):
+            if not consts or sk.check() != z3.sat:
+                return
+            m = sk.model()
+            vals = [m.eval(c, model_completion=True) for c in consts]
+            yield 3, list(zip(consts, vals))
+            sk.add(z3.Or(*[c != v for c, v in zip(consts, vals)]))
+
+    for N, env in _candidate_envs():
         fs = list(forms)
-        side = [c == N for c in len_consts.values()]
+        side = [c == v for c, v in env]
         ok = True
         for _ in range(24):
             apps = _top_level_apps(fs)
